@@ -3,6 +3,10 @@ Utility file to provide constants, exceptions and functions
 commonly used by the odML tools parsers and converters.
 """
 
+import csv
+
+from io import StringIO
+
 SUPPORTED_PARSERS = ['XML', 'YAML', 'JSON', 'RDF']
 
 
@@ -44,12 +48,10 @@ def odml_tuple_export(odml_tuples):
     :param odml_tuples: List of odml style tuples.
     :return: string
     """
-    str_tuples = ""
-    for val in odml_tuples:
-        str_val = ";".join(val)
-        if str_tuples:
-            str_tuples = "%s,(%s)" % (str_tuples, str_val)
-        else:
-            str_tuples = "(%s)" % str_val
+    stream = StringIO()
+    # The tuples are separated the same way as all other odml values: a tuple
+    # containing a comma or a double quote is quoted and can be told apart again.
+    csv.writer(stream, dialect="excel", lineterminator="").writerow(
+        ["(%s)" % ";".join(val) for val in odml_tuples])
 
-    return "[%s]" % str_tuples
+    return "[%s]" % stream.getvalue()
